@@ -10,6 +10,8 @@ CONSTANTS
   MaxT = 2
   MaxS = 1
   MaxClr = 1
+  MaxPlain = 1
+  Vias = {"set","import","views"}
   Depth = 4
   Gen = TRUE
 INIT Init
